@@ -108,11 +108,15 @@ def parse_vc(path):
                 elif word == "callrewrite":
                     a = rest.split()
                     cur.callrewrite.append((a[0], a[1], a[2] if len(a) > 2 else "#N9"))
-                elif word == "subst":
+                elif word in ("subst", "subst?"):
+                    allflag = False
+                    if rest.rstrip().endswith(" all"):
+                        allflag = True
+                        rest = rest.rstrip()[:-4].rstrip()
                     m = re.match(r'"(.*)"\s*=>\s*"(.*)"\s*(#\S+)?$', rest)
                     if not m:
                         raise SystemExit(f"{path}:{ln}: bad //@subst")
-                    cur.subst.append((m.group(1).replace('\\"', '"'), m.group(2).replace('\\"', '"'), m.group(3) or "#N?"))
+                    cur.subst.append((m.group(1).replace('\\"', '"'), m.group(2).replace('\\"', '"'), (m.group(3) or "#N?") + ("*" if allflag else "") + ("?" if word == "subst?" else "")))
                 elif word in ("sig", "loop", "closure", "before", "after", "wraptail", "armstart", "armend", "bodystart"):
                     blk = Block(word, rest, path, ln)
                     cur.blocks.append(blk)
@@ -565,13 +569,18 @@ def emit_fn(out, entry, mode, stats, canary=False):
             edits.append((pos, pos, "\n" + b.text().rstrip("\n") + "\n", vc_origin(b)))
         # subst (declared normalisations); `$n` holes stand for the whole content of a bracket pair and stay verbatim
         for frm, to, tag in entry.subst:
+            optional = tag.endswith("?")
+            tag = tag.rstrip("?")
             fparts = re.split(r"(\$\d)", frm)
             tparts = re.split(r"(\$\d)", to)
             if [x for x in fparts if x.startswith("$")] != [x for x in tparts if x.startswith("$")]:
                 raise SystemExit(f"{entry.id}: holes of //@subst differ between pattern and replacement")
             if len(fparts) == 1:
+                tag = tag.rstrip("*")
                 r = find_snippet(sf, bo + 1, last, frm)
                 if r is None:
+                    if optional:
+                        continue
                     raise LostAnchor(f"{entry.id}: subst source {frm!r} not found")
                 edits.append((r[0], r[1] + 1, to, dict(kind="gen", fn=entry.id, norm=tag)))
                 stats.count(tag.lstrip("#"))
@@ -580,7 +589,13 @@ def emit_fn(out, entry, mode, stats, canary=False):
             lit = [[t.text for t in tokenize(x) if t.kind not in (WS, COMMENT)] for x in fparts[0::2]]
             bsig = body
             found = None
+            all_found = []
+            want_all = tag.endswith("*")
+            tag = tag.rstrip("*")
+            a_start = 0
             for a in range(len(bsig)):
+                if a < a_start:
+                    continue
                 pos = a
                 runs = []
                 ok = True
@@ -608,14 +623,20 @@ def emit_fn(out, entry, mode, stats, canary=False):
                     pos += len(run)
                 if ok:
                     found = runs
-                    break
+                    all_found.append(runs)
+                    if not want_all:
+                        break
+                    a_start = pos
             if not found:
-                raise LostAnchor(f"{entry.id}: subst pattern {frm!r} not found")
-            for rng, rep in zip(found, tparts[0::2]):
-                if rng is None:
+                if optional:
                     continue
-                edits.append((rng[0], rng[1] + 1, rep, dict(kind="gen", fn=entry.id, norm=tag)))
-            stats.count(tag.lstrip("#"))
+                raise LostAnchor(f"{entry.id}: subst pattern {frm!r} not found")
+            for fr in all_found:
+                for rng, rep in zip(fr, tparts[0::2]):
+                    if rng is None:
+                        continue
+                    edits.append((rng[0], rng[1] + 1, rep, dict(kind="gen", fn=entry.id, norm=tag)))
+                stats.count(tag.lstrip("#"))
         # tryexpand (N18): `E?` => `match E { Ok(v) => v, Err(e) => return Err(From::from(e)) }` -- the meaning the Rust
         # reference gives to `?` on a Result; Verus itself does not connect `?` with the From implementation
         for snip, occ in entry.tryexpand:
